@@ -274,6 +274,13 @@ func passK(repo string, cfg *vc.SolverConfig, only string) (*vc.PassResult, erro
 // no-panic obligations are generated where it is under contract).
 func configureK(x *vc.Exec) {
 	x.NilInterfaceSafety = true
+	x.FrameScope = func(fn *ssa.Function) bool {
+		p := fn.Pkg
+		for q := fn; p == nil && q != nil; q = q.Parent() {
+			p = q.Pkg
+		}
+		return p != nil && strings.HasPrefix(p.Pkg.Path(), "go.uber.org/cff")
+	}
 	x.Classify = func(s *vc.State, c *vc.CallCtx, callee vc.Value) vc.CallMode {
 		if fv, ok := callee.(*vc.FuncVal); ok && !c.Common.IsInvoke() {
 			if sp, ok := x.Specs[fv.Fn]; ok && sp.Inline {
